@@ -284,7 +284,8 @@ impl<const RX: usize> TransportVisitor for V<RX> {
                     }
                     match op {
                         12 => p_fwd = p_rx_total,
-                        13 => p_buf_alloc = 1,
+                        // (The first shrink leaves one byte, the next one closes the window.)
+                        13 => p_buf_alloc = if p_buf_alloc == 1 { 0 } else { 1 },
                         _ => p_buf_alloc = 8,
                     }
                     let h = peer_hdr(OP_CREDIT_UPDATE, 0, p_buf_alloc, p_fwd);
@@ -432,4 +433,98 @@ pub fn run_mode(tkind: TKind, depth: usize, cap: u32, ring: bool) {
     let w = DWorld::new(Kind::Socket, tkind, offered, cfg);
     w.with_transport(V::<VSOCK_RX> { depth, cap, preset, ring });
     mmio::set_handler(None);
+}
+
+// ------------------------------------------------------------------------------------------------
+// A large per-connection buffer: the caller chooses the capacity, the driver advertises it, and a
+// peer that honours the advertisement fills it completely before anything is read.
+
+pub fn run_big_capacity(tkind: TKind, cap: u32) -> (u64, Vec<(String, String)>) {
+    struct VB {
+        cap: u32,
+    }
+    impl TransportVisitor for VB {
+        type Out = (u64, Vec<(String, String)>);
+        fn visit<T: Transport + 'static>(self, t: T, w: &DWorld) -> Self::Out {
+            const RX: usize = 2048;
+            let mut out: Vec<(String, String)> = vec![];
+            let dev = make_device(w);
+            cosim::install(&dev.co);
+            let sock = match VirtIOSocket::<LabHal, T, RX>::new(t) {
+                Ok(s) => s,
+                Err(e) => {
+                    cosim::uninstall();
+                    return (0, vec![("construction".into(), format!("{:?}", e))]);
+                }
+            };
+            let cap = self.cap;
+            let mut cm = VsockConnectionManager::new_with_capacity(sock, cap);
+            let _ = cm.connect(PEER, LPORT);
+            let peer_hdr = |op: u16, len: u32, fwd: u32| Hdr { src_cid: PEER.cid, dst_cid: GUEST_CID, src_port: PEER.port, dst_port: LPORT, len, typ: 1, op, flags: 0, buf_alloc: 4096, fwd_cnt: fwd };
+            dev.deliver(0, &peer_hdr(OP_RESPONSE, 0, 0), &[]);
+            let _ = cm.poll();
+            let advertised = dev.tx.borrow().first().map(|p| p.0.buf_alloc).unwrap_or(0);
+            if advertised != cap {
+                out.push(("header-buf-alloc".into(), format!("the connection request advertises buf_alloc {} for a connection created with a capacity of {}", advertised, cap)));
+            }
+            // The peer sends until the advertised credit is used up.
+            let mut sent: u64 = 0;
+            let mut n = 0u64;
+            while sent < advertised as u64 {
+                let len = (RX - HDR_LEN).min((advertised as u64 - sent) as usize);
+                let payload: Vec<u8> = (0..len as u64).map(|i| sbyte(sent + i)).collect();
+                if dev.deliver(0, &peer_hdr(OP_RW, len as u32, 0), &payload).is_none() {
+                    out.push(("no-receive-buffer".into(), format!("no receive buffer posted after {} bytes", sent)));
+                    break;
+                }
+                match crate::util::catch(|| cm.poll()) {
+                    Ok(Ok(Some(ev))) if ev.event_type == VsockEventType::Received { length: len } => {}
+                    other => {
+                        out.push(("poll-event".into(), format!("data within the advertised credit ({} of {} bytes so far, packet of {}) -> {:?}", sent, advertised, len, other)));
+                        break;
+                    }
+                }
+                sent += len as u64;
+                n += 1;
+                if n % 16 == 0 {
+                    hal::with(|h| h.compact());
+                    dev.co.borrow_mut().served.clear();
+                }
+            }
+            if out.is_empty() {
+                match cm.recv_buffer_available_bytes(PEER, LPORT) {
+                    Ok(b) if b as u64 == sent => {}
+                    other => out.push(("buffered-bytes".into(), format!("recv_buffer_available_bytes -> {:?} after {} bytes were delivered", other, sent))),
+                }
+                // Everything comes back, in order.
+                let mut pos = 0u64;
+                let mut buf = vec![0u8; 4099];
+                while pos < sent {
+                    match crate::util::catch(|| cm.recv(PEER, LPORT, &mut buf)) {
+                        Ok(Ok(k)) if k > 0 => {
+                            if (0..k).any(|i| buf[i] != sbyte(pos + i as u64)) {
+                                out.push(("recv-data".into(), format!("bytes read at stream position {} differ from what the peer sent", pos)));
+                                break;
+                            }
+                            pos += k as u64;
+                        }
+                        other => {
+                            out.push(("recv-data".into(), format!("recv at stream position {} of {} -> {:?}", pos, sent, other)));
+                            break;
+                        }
+                    }
+                }
+            }
+            drop(cm);
+            cosim::uninstall();
+            (n, out)
+        }
+    }
+    hal::reset();
+    let mut cfg = vec![0u8; 8];
+    cfg.copy_from_slice(&GUEST_CID.to_le_bytes());
+    let w = DWorld::new(Kind::Socket, tkind, F_VERSION_1, cfg);
+    let r = w.with_transport(VB { cap });
+    mmio::set_handler(None);
+    r
 }
